@@ -486,6 +486,12 @@ func updateOrModifyModel(dbModel model.DatabaseModel, table string, info *mapper
 
 		currentNative, err := info.FieldByColumn(column)
 		if err != nil {
+			if _, ok := err.(*mapper.ErrColumnNotFound); ok && reflect.TypeOf(info.Obj) == dbModel.Types()[table] {
+				// the model of a table may cover a subset of its columns:
+				// a change of a column it has no field for does not
+				// concern it
+				continue
+			}
 			return false, err
 		}
 
